@@ -51,12 +51,12 @@ EOF_READ_LIMIT = 64
 def _big(n, seed):
     # incompressible-ish deterministic bytes
     import hashlib
-    out = b''
+    out = bytearray()
     i = 0
     while len(out) < n:
         out += hashlib.sha256(b'%d:%d' % (seed, i)).digest()
         i += 1
-    return out[:n]
+    return bytes(out[:n])
 
 
 def status_json(version):
@@ -136,6 +136,15 @@ def conversation(kind, version):
     if kind == 'play':
         return ([{'version': version, 'login': [('success',)],
                   'play': play_spec(version, True)}],
+                {'allowed_versions': {version}}, 'connect')
+    if kind == 'bigframe':
+        # one frame well beyond 1 MiB between two keep-alives
+        return ([{'version': version, 'login': [('success',)],
+                  'play': {'bursts': [
+                      [('keep_alive', {'keep_alive_id': 1})],
+                      [('raw', 0x7A, _big(1536 * 1024, 3))],
+                      [('keep_alive', {'keep_alive_id': 2})]],
+                      'mode': 'all', 'end': 'disconnect'}}],
                 {'allowed_versions': {version}}, 'connect')
     raise ValueError(kind)
 
@@ -340,6 +349,23 @@ def t_conv(ctx, kind, version, shard, nshards, quick):
                             % (kind, version))
 
 
+def t_bigframe(ctx, version):
+    ends, N, full = boundaries('bigframe', version, 0)
+    big_end = min(e for e in ends if e > 1024 * 1024)
+    big_start = max(e for e in ends if e < big_end)
+    MiB = 1024 * 1024
+    pts = sorted({big_start, big_start + 1, big_start + 2, big_start + 3,
+                  big_start + 4, big_start + 300 * 1024, big_start + MiB,
+                  (big_start + big_end) // 2, big_end - MiB - 7,
+                  big_end - MiB + 7, big_end - 100 * 1024, big_end - 1,
+                  big_end, N})
+    for k, n in enumerate(pts):
+        cut_case(ctx, {'kind': 'bigframe', 'version': version, 'link': 0,
+                       'n': n, 'plan': ['whole', [65536, 1000, 300000]][k % 2]})
+    ctx.sample({'kind': 'bigframe', 'version': version, 'cuts': pts[:6]},
+               'bigframe')
+
+
 def t_random(ctx, n):
     strat = st.tuples(st.sampled_from(KINDS), st.sampled_from(PROTOCOLS),
                       st.integers(0, 1), st.integers(0, 10 ** 6),
@@ -369,6 +395,8 @@ def tasks(tier):
                 tl.append(('%s_%d_%d' % (kind, v, s), t_conv,
                            dict(kind=kind, version=v, shard=s, nshards=ns,
                                 quick=q)))
+    for v in (PROTOCOLS[::3] if q else PROTOCOLS):
+        tl.append(('bigframe_%d' % v, t_bigframe, dict(version=v)))
     for i in range(2 if q else 8):
         tl.append(('random_%d' % i, t_random, dict(n=60 if q else 1500)))
     return tl
